@@ -983,9 +983,15 @@ def coef_case(vec, fl):
     n = len(inp['lab'])
     npairs = len(coef)
 
+    # a list of identity precisions (one per fold) must give the same coefficients: this sends the
+    # measurement through the per-fold-precision branch of the code as well
+    extra = {}
+    if fl['noise'] == 'list' and inp['foldsrc'] == 'explicit':
+        extra = {'fprec': [[1]] * max(inp['fold'])}
+
     def d(rows):
         x = [[1] if o in rows else [0] for o in range(n)]
-        r = call_impl(dict(inp, x=x), fl)
+        r = call_impl(dict(inp, x=x, **extra), fl)
         g = project(r)
         G = [_norm(v) for v in g['pd'][COND]]
         L = [_norm(_lab(k, fl)) for k in out['lab']]
